@@ -62,6 +62,17 @@ def observe_case_(a, th, tracked, sample_lists, cmap, tmap, tscale, rng):
         ob["sitemuts"] = [[int(m.id), int(s.id), int(m.node), int(m.edge)] for s in tree.sites() for m in s.mutations]
         ob["num_mutations"] = int(tree.num_mutations)
         ob["mrca"] = [[int(tree.mrca(u, v)) for v in range(N)] for u in range(N)]
+        # mrca / tmrca of three and four nodes (any nodes, repeats allowed): [args, mrca, abstract time of tmrca or -1 when it raises]
+        mm = []
+        r2 = random.Random(7919 * len(trees) + 31 * N + len(a["edges"]))     # its own generator: the draws of the other observations stay as they were
+        for _ in range(6):
+            args_ = [r2.randrange(N) for _j in range(r2.choice([3, 3, 4]))]
+            try:
+                tm_ = tmap.back(tree.tmrca(*args_))
+            except ValueError:
+                tm_ = -1
+            mm.append([args_, int(tree.mrca(*args_)), tm_])
+        ob["mrcan"] = mm
         ob["depth"] = [int(tree.depth(u)) for u in range(N)]
         ob["bl"] = [as_int(tree.branch_length(u), tscale) for u in range(N)]
         ob["tbl"] = as_int(tree.total_branch_length, tscale)
